@@ -5,7 +5,7 @@ d=$1; bin=$2; shift 2
 export GOFLAGS=-mod=mod GOPROXY=off GOSUMDB=off GOTOOLCHAIN=local; unset GOWORK
 t=$(mktemp -d /tmp/rf1.XXXX); mkdir -p $t/repo $t/verif
 git -C /repo archive HEAD | tar -x -C $t/repo
-cp /verif/known_findings.json $t/verif/
+cp /verif/known_findings.json $t/verif/; cp -r /verif/reference $t/verif/
 ([ -s $d/patch.diff ] || exit 0; cd $t/repo && git apply $d/patch.diff) || { echo "PATCH DOES NOT APPLY"; rm -rf $t; exit 2; }
 for p in "$@"; do
   out=$(FV_REPO=$t/repo FV_VERIF=$t/verif $bin check -prop $p 2>&1); code=$?
